@@ -79,7 +79,7 @@ def crc32c_ref(data):
     return (crc ^ 0xFFFFFFFF).to_bytes(4, "little")
 
 
-def foreign_encode(rng, dag, roots=None, freedoms=True, force=None):
+def foreign_encode(rng, dag, roots=None, freedoms=True, force=None, force_hashes=None):
     """Encode the cells of `dag` (children-first list) as a conforming BoC using random admissible choices.
     Returns (bytes, root indices into dag, description)."""
     n = len(dag)
@@ -102,8 +102,10 @@ def foreign_encode(rng, dag, roots=None, freedoms=True, force=None):
     if force:
         size, magic = force["size"], force["magic"]
     with_hashes = freedoms and rng.random() < 0.3
+    if force_hashes is not None:
+        with_hashes = force_hashes
     body_cells = [node_bytes(dag[i][0], dag[i][1], masks[i], [pos[r] for r in dag[i][2]], size,
-                             with_hashes and rng.random() < 0.7, rng) for i in order]
+                             with_hashes and (force_hashes or rng.random() < 0.7), rng) for i in order]
     payload = b"".join(body_cells)
     if magic == "reach":
         has_idx = rng.random() < 0.5 if freedoms else False
